@@ -251,6 +251,16 @@ func coqCase(cs caseSpec, o obs) string {
 				read[x.P]++
 			}
 		}
+		var mid []int64
+		npom := 0
+		for _, x := range o.Log {
+			if x.Call == ci && x.K == "pomerr" {
+				npom++
+				if x.Flag {
+					mid = append(mid, x.P)
+				}
+			}
+		}
 		var errs []string
 		for _, p := range errParts {
 			r := read[p]
@@ -264,11 +274,11 @@ func coqCase(cs caseSpec, o obs) string {
 			clm = append(clm, fmt.Sprintf("(%s, %s)", cf.Z(p), cf.List(claims[p])))
 		}
 		calls = append(calls, fmt.Sprintf("{| cc_trig := %s; cc_arg := %s; cc_handler := {| hd_setup_ok := %s; hd_cleanup_ok := %s; hd_beh := %s; hd_default := {| h_quota := None; h_mark := 0%%nat |} |}; "+
-			"cc_coords := %s; cc_joins := %s; cc_syncs := %s; cc_fetches := %s; cc_attempts := %s; cc_hbs := %s; cc_commits := %s; cc_started := %s; cc_consumed := %s; cc_produce := %s; cc_errs := %s; "+
+			"cc_coords := %s; cc_joins := %s; cc_syncs := %s; cc_fetches := %s; cc_attempts := %s; cc_hbs := %s; cc_commits := %s; cc_started := %s; cc_consumed := %s; cc_produce := %s; cc_errs := %s; cc_reported := %s; cc_mid := %s; cc_pomerrs := %s; "+
 			"cc_fired := %s; cc_main := %s; cc_claims := %s; cc_hbids := %s |}",
 			coqTrig(call.Trigger), cf.Nat(call.TrigArg), cf.Bool(call.SetupOK), cf.Bool(call.CleanupOK), cf.List(beh),
 			coqBools(co.Coords), cf.List(joins), cf.List(syncs), coqBools(co.Fetches), coqAttempts(&call), cf.List(hbs), coqBools(co.Commits),
-			cf.ZList(started), cf.List(cons), cf.ZList(call.Produce), cf.List(errs), cf.Bool(co.Fired), cf.List(main), cf.List(clm), cf.List(hbids)))
+			cf.ZList(started), cf.List(cons), cf.ZList(call.Produce), cf.List(errs), cf.Bool(call.Reported), cf.ZList(mid), cf.Nat(npom), cf.Bool(co.Fired), cf.List(main), cf.List(clm), cf.List(hbids)))
 	}
 	var tail []string
 	for _, x := range o.Log {
@@ -346,6 +356,9 @@ func main() {
 		} else if i%12 == 9 || i%12 == 1 {
 			cases = append(cases, genErrPath(r))
 			kinds = append(kinds, "errpath")
+		} else if i%12 == 2 || i%12 == 10 {
+			cases = append(cases, genPomErr(r))
+			kinds = append(kinds, "pomerr")
 		} else if i%12 == 5 {
 			cases = append(cases, genTransient(r))
 			kinds = append(kinds, "transient")
